@@ -68,9 +68,80 @@ for sd in sorted(glob.glob('/verif/seeded/*')):
             jobs.append((run_seed, sd))
     except Exception:
         pass
+import hashlib
+_state_key = None
+def state_key():
+    """Identifies what a verdict on a refactoring depends on: the checker binary, /repo's working tree, the known findings."""
+    global _state_key
+    if _state_key is None:
+        h = hashlib.sha1()
+        h.update(open(os.environ.get('GENQLCHECK', '/verif/bin/genqlcheck'), 'rb').read())
+        h.update(open('/verif/known_findings.json', 'rb').read())
+        for root, dirs, files in os.walk('/repo'):
+            dirs[:] = sorted(x for x in dirs if x != '.git')
+            for f in sorted(files):
+                if f.endswith('.go') or f in ('go.mod', 'go.sum'):
+                    h.update(os.path.join(root, f).encode()); h.update(open(os.path.join(root, f), 'rb').read())
+        _state_key = h.hexdigest()
+    return _state_key
+
+def check_all(d):
+    """One run of every property's check on the scratch copy d: {property: [VIOLATED/UNDECIDED lines]} or a status string."""
+    try:
+        r = subprocess.run([os.environ.get('GENQLCHECK', '/verif/bin/genqlcheck'), '-repo', d, '-verif', '/verif', '-property', 'all', '-no-evidence'], capture_output=True, text=True, env=ENV, timeout=1800)
+    except subprocess.TimeoutExpired:
+        return 'TIMEOUT'
+    if r.returncode == 2 or r.stdout.startswith('ERROR'):
+        return 'NOCOMPILE'
+    per, cur = {}, []
+    for l in r.stdout.splitlines():
+        if l.startswith('VIOLATED') or l.startswith('UNDECIDED'):
+            cur.append(l)
+        elif l.startswith('VIOLATION property='):
+            per.setdefault(l.split('=')[1].split()[0], []).extend(cur); cur = []
+        elif l.startswith('CHECKER PANIC'):
+            return 'TIMEOUT'
+    return per
+
+def refactoring_verdicts(rd, d_factory):
+    """The verdicts of all twenty checks on one refactoring, computed once (one process analysing the copy for every property)
+    and shared between the per-property self-tests through a cache keyed by everything the verdict depends on. The cache only
+    saves time: when it is absent the verdicts are recomputed."""
+    key = hashlib.sha1((state_key() + open(os.path.join(rd, 'patch.diff'), 'rb').read().hex()).encode()).hexdigest()
+    cdir = '/tmp/genql-selftest-cache'
+    os.makedirs(cdir, exist_ok=True)
+    cf = os.path.join(cdir, key + '.json')
+    if os.path.exists(cf):
+        try:
+            return json.load(open(cf))
+        except Exception:
+            pass
+    d = d_factory()
+    try:
+        a = subprocess.run(['patch', '-p1', '-s', '-i', os.path.join(rd, 'patch.diff')], cwd=d, capture_output=True, text=True)
+        res = 'NOPATCH' if a.returncode != 0 else check_all(d)
+    finally:
+        shutil.rmtree(d, ignore_errors=True)
+    tmp = cf + '.%d.tmp' % os.getpid()
+    json.dump(res, open(tmp, 'w'))
+    os.replace(tmp, cf)
+    return res
+
 def run_refactoring(rd):
     """A behaviour-preserving refactoring: the check of this property must stay silent on it."""
     name = os.path.basename(rd)
+    if os.environ.get('SELFTEST_NO_SHARED_RUNS') != '1':
+        res = refactoring_verdicts(rd, scratch)
+        if res == 'NOPATCH':
+            return 'refactoring:' + name, 'SKIPPED', 'patch no longer applies'
+        if res == 'NOCOMPILE':
+            return 'refactoring:' + name, 'SKIPPED', 'does not compile any more'
+        if res == 'TIMEOUT':
+            return 'refactoring:' + name, 'FALSE-ALARM', 'the checker did not finish (or panicked) on the refactored tree'
+        lines = res.get(pid, [])
+        if not lines:
+            return 'refactoring:' + name, 'SILENT', ''
+        return 'refactoring:' + name, 'FALSE-ALARM', lines[0][:160]
     d = scratch()
     try:
         a = subprocess.run(['patch', '-p1', '-s', '-i', os.path.join(rd, 'patch.diff')], cwd=d, capture_output=True, text=True)
